@@ -167,6 +167,46 @@ theorem neg_guard_bounds (Q K Sf mant M j L : Nat) (be : Int) (hbe : be = (K : I
         _ ≤ 2 ^ 55 * 5 ^ 1093 := Nat.mul_le_mul (by omega) h5j
         _ < 2 ^ 3968 := c2
 
+/-- the same when the estimate rounds down to `+∞` (`K ≥ 2^eb − 2 = 2·bf`): the value is at least `2^(bf+1)`, so
+`theor = bh(+∞)·10^j`-scaled is at most `2·M` -/
+theorem neg_guard_inf_bounds (p bf K mant M j L Sf : Nat) (hp : 2 ≤ p) (hpb : p + 1 ≤ bf) (hK : 2 * bf ≤ K)
+    (hmant : 2 ^ Sf * 2 ^ (p - 1) ≤ mant) (hL : L = bf + (p - 1) - 1) (hM : M < 10 ^ 769)
+    (lo : mant * 2 ^ K * 10 ^ j ≤ M * 2 ^ L * 2 ^ Sf) :
+    (2 * 2 ^ (p - 1) + 1) * 5 ^ j * 2 ^ (((2 * bf : Nat) : Int) - ((bf + (p - 1) : Nat) : Int) + j).toNat < 2 ^ 3968 ∧
+    M * 2 ^ (-(((2 * bf : Nat) : Int) - ((bf + (p - 1) : Nat) : Int) + j)).toNat < 2 ^ 3968 := by
+  obtain ⟨c1, _, _⟩ := pow_caps
+  have h10 : (10 : Nat) ^ j = 5 ^ j * 2 ^ j := by rw [← Nat.mul_pow]
+  have e1 : (((2 * bf : Nat) : Int) - ((bf + (p - 1) : Nat) : Int) + j).toNat = bf - (p - 1) + j := by omega
+  have e2 : (-(((2 * bf : Nat) : Int) - ((bf + (p - 1) : Nat) : Int) + j)).toNat = 0 := by omega
+  rw [e1, e2, Nat.pow_zero, Nat.mul_one]
+  refine ⟨?_, by omega⟩
+  have hSpos := Nat.two_pow_pos Sf
+  have k0 : 2 ^ (2 * bf) ≤ 2 ^ K := Nat.pow_le_pow_right (by decide) hK
+  have k1 : 2 ^ (p - 1) * 2 ^ (2 * bf) * 10 ^ j ≤ M * 2 ^ L := by
+    apply Nat.le_of_mul_le_mul_right _ hSpos
+    calc 2 ^ (p - 1) * 2 ^ (2 * bf) * 10 ^ j * 2 ^ Sf = (2 ^ Sf * 2 ^ (p - 1)) * 2 ^ (2 * bf) * 10 ^ j := by ring
+      _ ≤ mant * 2 ^ K * 10 ^ j := Nat.mul_le_mul_right _ (Nat.mul_le_mul hmant k0)
+      _ ≤ M * 2 ^ L * 2 ^ Sf := lo
+  have k2 : 2 ^ (bf + 1) * 10 ^ j ≤ M := by
+    apply Nat.le_of_mul_le_mul_right _ (Nat.two_pow_pos L)
+    calc 2 ^ (bf + 1) * 10 ^ j * 2 ^ L = 2 ^ (bf + 1 + L) * 10 ^ j := by rw [Nat.pow_add]; ring
+      _ = 2 ^ (p - 1 + 2 * bf) * 10 ^ j := by congr 2; omega
+      _ = 2 ^ (p - 1) * 2 ^ (2 * bf) * 10 ^ j := by rw [Nat.pow_add]
+      _ ≤ M * 2 ^ L := k1
+  have k3 : 2 * 2 ^ (p - 1) + 1 ≤ 2 ^ (p + 1) := by
+    have : 2 ^ (p + 1) = 4 * 2 ^ (p - 1) := by
+      rw [show p + 1 = (p - 1) + 2 by omega, Nat.pow_add]; ring
+    have := Nat.two_pow_pos (p - 1)
+    omega
+  calc (2 * 2 ^ (p - 1) + 1) * 5 ^ j * 2 ^ (bf - (p - 1) + j)
+      ≤ 2 ^ (p + 1) * 5 ^ j * 2 ^ (bf - (p - 1) + j) :=
+        Nat.mul_le_mul_right _ (Nat.mul_le_mul_right _ k3)
+    _ = 2 ^ (p + 1 + (bf - (p - 1))) * 10 ^ j := by rw [h10, Nat.pow_add, Nat.pow_add]; ring
+    _ = 2 * (2 ^ (bf + 1) * 10 ^ j) := by
+        rw [show p + 1 + (bf - (p - 1)) = (bf + 1) + 1 by omega, Nat.pow_succ]; ring
+    _ ≤ 2 * M := Nat.mul_le_mul_left _ k2
+    _ < 2 ^ 3968 := by omega
+
 /-! ## the value of all the digits lies in `[w, w + 1)·10^q` -/
 
 /-- `S = w·10^A + tail` with `tail < 10^A`, `q = A + E − fl`: then `S·10^(E − fl) ∈ [w·10^q, (w+1)·10^q)`, in the
@@ -230,9 +270,9 @@ theorem mantissaOf_trunc {d : Nat} {sig : List Nat} (hd19 : 19 ≤ d) (hN : 19 <
 
 /-- **`SlowDomain` and the pipeline's bracket for the truncated decimal `Number`s**: the words of the `Number` are the
 first 19 significant digits and the matching exponent (`number_truncated_of_syntax`); `lemire` handed over an
-estimate `fp` of `w·10^q` from inside the table; at most `d = max_digits` significant digits, or zeros beyond; the
-estimate rounds down to a finite float when `negative_digit_comp` is the one called (`hfin`). Then every condition of the
-slow-path model's domain holds, and `fp` brackets the value of all the digits. -/
+estimate `fp` of `w·10^q` from inside the table; at most `d = max_digits` significant digits, or zeros beyond. Then every
+condition of the slow-path model's domain holds — whether the estimate rounds down to a finite float or to `+∞` — and
+`fp` brackets the value of all the digits. -/
 theorem slowDomain_of_truncated {F : FTy} (hF : IsLemireFloat F) {p eb : Nat} (lay : Layout F p eb) (c : Cfg)
     (hr : c.mantissaRadix = 10) (hb : c.exponentBase = 10) (n : Number) (hs : PlainSlices c n)
     (hN : 19 < (sigBytes n.integer n.fraction).length)
@@ -244,9 +284,7 @@ theorem slowDomain_of_truncated {F : FTy} (hF : IsLemireFloat F) {p eb : Nat} (l
     (hest : EstOK F p fp (powFrac 10 n.exponent n.mantissa).1 (powFrac 10 n.exponent n.mantissa).2)
     (d : Nat) (hd : (Slow.envOf c.feats).S.maxDigits F.fmt 10 = some d) (hd19 : 19 ≤ d) (hd769 : d ≤ 769)
     (hfew : (sigBytes n.integer n.fraction).length ≤ d ∨
-      Slow.anyNonzero ((sigBytes n.integer n.fraction).drop d) = false)
-    (hfin : C01Slow.digitExponent (sciOf c n) (C01Slow.mantissaOf 10 d (sigBytes n.integer n.fraction)).2 < 0 →
-      C01Slow.roundedDown F { fp with exp := fp.exp - invalidFp } < F.fmt.infBits) :
+      Slow.anyNonzero ((sigBytes n.integer n.fraction).drop d) = false) :
     SlowDomain c F p n { fp with exp := fp.exp - invalidFp } d ∧
     Bracket F fp (litFrac 10 10 (numberLit c n)).1 (litFrac 10 10 (numberLit c n)).2 := by
   have FN := floatNums_of hF lay
@@ -358,12 +396,11 @@ theorem slowDomain_of_truncated {F : FTy} (hF : IsLemireFloat F) {p eb : Nat} (l
     · -- negative exponent
       rw [hr, hsig, hsci, hmo]
       intro hneg
-      have hfin' := hfin (by rw [hsci, hmo]; exact hneg)
       unfold C01Slow.digitExponent at hneg ⊢
       simp only at hneg ⊢
       have hest' := hest
       obtain ⟨f1, f2, f3, f4, _, _⟩ := hest'
-      refine ⟨f1, f2, by show fp.exp - invalidFp < 2 ^ 20; omega, hfin', ?_⟩
+      refine ⟨f1, f2, by show fp.exp - invalidFp < 2 ^ 20; omega, ?_⟩
       -- the estimate is a 40-estimate of `M / 10^j`
       obtain ⟨i1, i2⟩ := interval_core M n.mantissa (cnt - 19) 0 n.exponent (n.exponent + ↑T + 1 - (cnt : Int))
         hM1 hM2 hw0 (by omega)
@@ -372,28 +409,6 @@ theorem slowDomain_of_truncated {F : FTy} (hF : IsLemireFloat F) {p eb : Nat} (l
       rw [hdz] at hW
       simp only [Nat.pow_zero, Nat.mul_one, Nat.one_mul] at hW
       obtain ⟨_, _, _, _, lo, hi⟩ := hW
-      obtain ⟨kq1, kq2⟩ := roundedDown_kq lay { mant := fp.mant, exp := fp.exp - invalidFp } f1 f2 hfin'
-      simp only at kq1 kq2
-      -- `Q = 0` only with `K = 0`
-      have hQ0 : fp.mant / 2 ^ shiftOf p (fp.exp - invalidFp) = 0 → (fp.exp - invalidFp + 64 - ↑p - 1).toNat = 0 := by
-        intro h0
-        by_cases hp2 : -(fp.exp - invalidFp) + 1 ≤ 64
-        · obtain ⟨qa, _, _, _, _⟩ := LexVerif.Proof.BinaryCorrect.quot_bounds hp (by omega) f1 f2 (fp.exp - invalidFp) hp2
-          apply Classical.byContradiction; intro hK
-          have := (qa (by omega)).2.1
-          have := Nat.two_pow_pos (p - 1)
-          omega
-        · omega
-      have hS3 : 64 - p ≤ shiftOf p (fp.exp - invalidFp) := by
-        unfold shiftOf; split <;> omega
-      have hS40 : 40 ≤ 2 ^ shiftOf p (fp.exp - invalidFp) := by
-        calc 40 ≤ 2 ^ 11 := by decide
-          _ ≤ 2 ^ shiftOf p (fp.exp - invalidFp) := Nat.pow_le_pow_right (by decide) (by omega)
-      have hQ53 : fp.mant / 2 ^ shiftOf p (fp.exp - invalidFp) < 2 ^ 53 := by
-        have : 2 * 2 ^ (p - 1) ≤ 2 ^ 53 := by
-          rw [← Nat.pow_succ']
-          exact Nat.pow_le_pow_right (by decide) (by omega)
-        omega
       have hLb : (F.C.exponentBias : Int) = (L F.fmt : Int) + 1 := by
         rw [lay.bias, LexVerif.Proof.BinaryCorrect.L_eq lay]
         have := lay.hL127
@@ -401,15 +416,98 @@ theorem slowDomain_of_truncated {F : FTy} (hF : IsLemireFloat F) {p eb : Nat} (l
       have hcap := cap_ge c.feats
       have hcapp : 2 ^ 3968 ≤ 2 ^ (64 * (Slow.envOf c.feats).L.bigintLimbs) :=
         Nat.pow_le_pow_right (by decide) (by omega)
-      generalize hj : (-(n.exponent + ↑T + 1 - (cnt : Int))).toNat = j at *
-      generalize hK : (fp.exp - invalidFp + 64 - ↑p - 1).toNat = K at *
-      generalize hQ : fp.mant / 2 ^ shiftOf p (fp.exp - invalidFp) = Q at *
-      obtain ⟨g1, g2⟩ := neg_guard_bounds Q K (shiftOf p (fp.exp - invalidFp)) fp.mant M j (L F.fmt)
-        ((K : Int) - F.C.exponentBias - (n.exponent + ↑T + 1 - (cnt : Int))) (by omega) hQ.symm hS40 hQ0 hQ53
-        (by omega) hM769 lo hi
-      unfold C01Slow.NegGuard
-      simp only [hK, hQ, hj]
-      exact ⟨Nat.lt_of_lt_of_le g1 hcapp, Nat.lt_of_lt_of_le g2 hcapp⟩
+      by_cases hfin' : C01Slow.roundedDown F { mant := fp.mant, exp := fp.exp - invalidFp } < F.fmt.infBits
+      · refine Or.inl ⟨hfin', ?_⟩
+        obtain ⟨kq1, kq2⟩ := roundedDown_kq lay { mant := fp.mant, exp := fp.exp - invalidFp } f1 f2 hfin'
+        simp only at kq1 kq2
+        -- `Q = 0` only with `K = 0`
+        have hQ0 : fp.mant / 2 ^ shiftOf p (fp.exp - invalidFp) = 0 → (fp.exp - invalidFp + 64 - ↑p - 1).toNat = 0 := by
+          intro h0
+          by_cases hp2 : -(fp.exp - invalidFp) + 1 ≤ 64
+          · obtain ⟨qa, _, _, _, _⟩ := LexVerif.Proof.BinaryCorrect.quot_bounds hp (by omega) f1 f2 (fp.exp - invalidFp) hp2
+            apply Classical.byContradiction; intro hK
+            have := (qa (by omega)).2.1
+            have := Nat.two_pow_pos (p - 1)
+            omega
+          · omega
+        have hS3 : 64 - p ≤ shiftOf p (fp.exp - invalidFp) := by
+          unfold shiftOf; split <;> omega
+        have hS40 : 40 ≤ 2 ^ shiftOf p (fp.exp - invalidFp) := by
+          calc 40 ≤ 2 ^ 11 := by decide
+            _ ≤ 2 ^ shiftOf p (fp.exp - invalidFp) := Nat.pow_le_pow_right (by decide) (by omega)
+        have hQ53 : fp.mant / 2 ^ shiftOf p (fp.exp - invalidFp) < 2 ^ 53 := by
+          have : 2 * 2 ^ (p - 1) ≤ 2 ^ 53 := by
+            rw [← Nat.pow_succ']
+            exact Nat.pow_le_pow_right (by decide) (by omega)
+          omega
+        generalize hj : (-(n.exponent + ↑T + 1 - (cnt : Int))).toNat = j at *
+        generalize hK : (fp.exp - invalidFp + 64 - ↑p - 1).toNat = K at *
+        generalize hQ : fp.mant / 2 ^ shiftOf p (fp.exp - invalidFp) = Q at *
+        obtain ⟨g1, g2⟩ := neg_guard_bounds Q K (shiftOf p (fp.exp - invalidFp)) fp.mant M j (L F.fmt)
+          ((K : Int) - F.C.exponentBias - (n.exponent + ↑T + 1 - (cnt : Int))) (by omega) hQ.symm hS40 hQ0 hQ53
+          (by omega) hM769 lo hi
+        unfold C01Slow.NegGuard
+        simp only [hK, hQ, hj]
+        exact ⟨Nat.lt_of_lt_of_le g1 hcapp, Nat.lt_of_lt_of_le g2 hcapp⟩
+      · -- the estimate rounds down to `+∞`
+        have hinfpos := LexVerif.Proof.RoundNE.infBits_pos lay.wf
+        have hfp : F.fmt.p = p := by rw [lay.fmt]
+        have hfe : F.fmt.ebits = eb := by rw [lay.fmt]
+        have hinf : F.fmt.infBits = (2 ^ eb - 1) * 2 ^ (p - 1) := by rw [lay.fmt]; rfl
+        have hp2 : -(fp.exp - invalidFp) + 1 ≤ 64 := by
+          apply Classical.byContradiction; intro hcon
+          rw [C01Slow.roundedDown_tiny lay { mant := fp.mant, exp := fp.exp - invalidFp } f2 (by dsimp only; omega)] at hfin'
+          omega
+        obtain ⟨qa, qb, _, _, _⟩ := LexVerif.Proof.BinaryCorrect.quot_bounds hp (by omega) f1 f2 (fp.exp - invalidFp) hp2
+        have hrd : C01Slow.roundedDown F { mant := fp.mant, exp := fp.exp - invalidFp } =
+            encode F.fmt (fp.exp - invalidFp + 64 - ↑p - 1).toNat (fp.mant / 2 ^ shiftOf p (fp.exp - invalidFp)) := by
+          unfold C01Slow.roundedDown
+          exact round_down_bits lay { mant := fp.mant, exp := fp.exp - invalidFp } f1 f2 hp2
+        have hov : F.fmt.infBits ≤ (fp.exp - invalidFp + 64 - ↑p - 1).toNat * 2 ^ (p - 1) +
+            fp.mant / 2 ^ shiftOf p (fp.exp - invalidFp) := by
+          rw [hrd] at hfin'
+          unfold encode at hfin'
+          rw [hfp] at hfin'
+          split at hfin'
+          · assumption
+          · omega
+        have heq : C01Slow.roundedDown F { mant := fp.mant, exp := fp.exp - invalidFp } = F.fmt.infBits := by
+          rw [hrd]; unfold encode; rw [hfp, if_pos hov]
+        refine Or.inr ⟨heq, ?_⟩
+        have heb := lay.heb
+        have h2eb : 2 ^ eb = 2 * 2 ^ (eb - 1) := by
+          rw [← Nat.pow_succ']; congr 1; omega
+        have hTpos := Nat.two_pow_pos (p - 1)
+        have hebpos := Nat.two_pow_pos (eb - 1)
+        generalize hK : (fp.exp - invalidFp + 64 - ↑p - 1).toNat = K at *
+        have hK2 : 2 * (2 ^ (eb - 1) - 1) ≤ K := by
+          rw [hinf] at hov
+          apply Classical.byContradiction; intro hcon
+          have h1 : K + 3 ≤ 2 ^ eb := by omega
+          have h2 : (K + 3) * 2 ^ (p - 1) ≤ 2 ^ eb * 2 ^ (p - 1) := Nat.mul_le_mul_right _ h1
+          have h3 : (2 ^ eb - 1) * 2 ^ (p - 1) + 2 ^ (p - 1) = 2 ^ eb * 2 ^ (p - 1) := by
+            rw [← Nat.succ_mul]; congr 1; omega
+          have h4 : (K + 3) * 2 ^ (p - 1) = K * 2 ^ (p - 1) + 3 * 2 ^ (p - 1) := by ring
+          omega
+        have hKpos : 0 < K := by
+          have : 2 ≤ 2 ^ (eb - 1) := by
+            calc 2 = 2 ^ 1 := rfl
+              _ ≤ 2 ^ (eb - 1) := Nat.pow_le_pow_right (by decide) (by omega)
+          omega
+        obtain ⟨hSf, _, hmant⟩ := qa hKpos
+        generalize hj : (-(n.exponent + ↑T + 1 - (cnt : Int))).toNat = j at *
+        obtain ⟨g1, g2⟩ := neg_guard_inf_bounds p (2 ^ (eb - 1) - 1) K fp.mant M j (L F.fmt)
+          (shiftOf p (fp.exp - invalidFp)) hp lay.hpb hK2 hmant (LexVerif.Proof.BinaryCorrect.L_eq lay) hM769 lo
+        unfold C01Slow.NegGuardInf
+        rw [hfe, lay.bias]
+        have e1 : ((2 ^ eb - 2 : Nat) : Int) - ((2 ^ (eb - 1) - 1 + (p - 1) : Nat) : Int) -
+            (n.exponent + ↑T + 1 - (cnt : Int)) =
+            ((2 * (2 ^ (eb - 1) - 1) : Nat) : Int) - ((2 ^ (eb - 1) - 1 + (p - 1) : Nat) : Int) + j := by
+          have : 2 ^ eb - 2 = 2 * (2 ^ (eb - 1) - 1) := by omega
+          rw [this]; omega
+        rw [e1]
+        simp only [hj]
+        exact ⟨Nat.lt_of_lt_of_le g1 hcapp, Nat.lt_of_lt_of_le g2 hcapp⟩
   · -- the bracket
     obtain ⟨i1, i2⟩ := interval_core S n.mantissa (sig.length - 19) fl n.exponent n.explicitExp hS1 hS2 hw0 (by omega)
     have hW := estW_widen _ _ _ _ n.mantissa hest hm36 hw0 hwd i1 i2
